@@ -840,6 +840,7 @@ def corr_pairs(ck, rng, mod, lay):
             ck.count(f'SMARTS of the library rejected: {type(e).__name__}')
     ck.extra['smarts_library'] = len(lib)
     cases, meta = [], []
+    hyp_cases = []
     seen_mol, seen_q = set(), set()
     mismatches = []
     n_pairs = n_oracle = 0
@@ -895,6 +896,8 @@ def corr_pairs(ck, rng, mod, lay):
                 if rng.random() >= (p_hit if (slow or fast) else p_empty) and kind == 'seed':
                     continue
                 n_pairs += 1
+                if n_pairs % 3 == 0:
+                    hyp_cases.append(f'hyps_ok {rq_term(comp, clo)} {rm}')
                 cases.append(f'pair_ok {rq_term(comp, clo)} {rm} {lst(bits, lambda x: b(bool(x)))} {maps_term(fast, qnums)} {maps_term(slow, qnums)}')
                 meta.append(('pair', qtext, text, ci, sum(bits)))
                 ck.case(('pair', qtext, text, ci, tuple(bits)), nontrivial=bool(slow) or bool(fast))
@@ -908,6 +911,10 @@ def corr_pairs(ck, rng, mod, lay):
               '_get_mapping == ref_search as SEQUENCES of mappings (every component / scope call)', ok and not failing, 'correspondence',
               log or str([meta[i] for i in failing[:5]]))
     ck.extra['correspondence_cases_search'] = len(cases)
+    # how many of the compared calls lie inside the hypotheses of C09_mask_search_equiv_b (information, not an obligation)
+    okh, outside, _ = coqcases.run_cases('c09_hyp', 'PyBase', hyp_cases, extra=EXTRA, shard=200)
+    if okh:
+        ck.extra['search_pairs_inside_theorem_hypotheses'] = f'{len(hyp_cases) - len(outside)} of {len(hyp_cases)} sampled calls'
     ck.extra['search_pairs'] = n_pairs
     ck.extra['component_scope_calls_compared'] = n_oracle
     if cases:
